@@ -34,6 +34,7 @@ import (
 	"github.com/lestrrat-go/jwx/v2/jwt"
 	"github.com/nuts-foundation/nuts-node/audit"
 	"github.com/nuts-foundation/nuts-node/core"
+	"github.com/nuts-foundation/nuts-node/crypto/jwx"
 	"github.com/nuts-foundation/nuts-node/http/log"
 	"github.com/sirupsen/logrus"
 )
@@ -206,6 +207,10 @@ func credentialIsSecure(credential string) error {
 	message, err := jws.Parse([]byte(credential), jws.WithCompact())
 	if err != nil {
 		return fmt.Errorf("cannot parse credential: jws.ParseString: %w", err)
+	}
+	// The signature must be over the bytes that were received, not over a normalized form of them
+	if err := jwx.ValidateCompactSerialization([]byte(credential)); err != nil {
+		return fmt.Errorf("cannot parse credential: %w", err)
 	}
 
 	// Inspect the signatures in the message
